@@ -52,6 +52,48 @@ class NTupleClass:
         return f"<namedtuple class {self.name}>"
 
 
+class SigVal:
+    """inspect.signature(f) of a package function"""
+    def __init__(self, closure):
+        self.closure = closure
+        a = closure.node.args
+        self.names = [x.arg for x in a.posonlyargs + a.args] + [x.arg for x in a.kwonlyargs]
+        self.npos = len(a.posonlyargs) + len(a.args)
+        self.required = set(self.names[:self.npos - len(a.defaults)]) | {x.arg for x, d in zip(a.kwonlyargs, a.kw_defaults) if d is None}
+        self.vararg, self.kwarg = a.vararg, a.kwarg
+
+    def bind(self, I, args, kw, partial=False):
+        out = {}
+        if len(args) > self.npos and not self.vararg:
+            raise SymRaise("TypeError", "too many positional arguments")
+        for n, v in zip(self.names[:self.npos], args):
+            out[n] = v
+        if len(args) > self.npos:
+            out[self.vararg.arg] = tuple(args[self.npos:])
+        extra = {}
+        for k_, v in kw.items():
+            if k_ in out:
+                raise SymRaise("TypeError", f"multiple values for argument {k_!r}")
+            if k_ in self.names:
+                out[k_] = v
+            elif self.kwarg:
+                extra[k_] = v
+            else:
+                raise SymRaise("TypeError", f"got an unexpected keyword argument {k_!r}")
+        if extra:
+            out[self.kwarg.arg] = extra
+        if not partial:
+            missing = [n for n in self.names if n in self.required and n not in out]
+            if missing:
+                raise SymRaise("TypeError", f"missing a required argument: {missing[0]!r}")
+        return {n: out[n] for n in self.names + ([self.vararg.arg] if self.vararg else []) + ([self.kwarg.arg] if self.kwarg else []) if n in out}
+
+
+class BoundArgs:
+    def __init__(self, arguments):
+        self.arguments = arguments
+
+
 class WeakDict(dict):
     """weakref.Weak*Dictionary: a mapping that does not keep its values/keys alive"""
 
@@ -867,9 +909,47 @@ def value_attr(I, obj, name):
             return parts(obj)
         if name == "T":
             return obj
+    if isinstance(obj, SigVal):
+        if name in ("bind", "bind_partial"):
+            partial = name == "bind_partial"
+
+            def bind(*a, **k):
+                return BoundArgs(obj.bind(I, list(a), dict(k), partial))
+            return Builtin(name, bind)
+        if name == "parameters":
+            return {n: n for n in obj.names}
+        raise AnalysisError(f"inspect.Signature.{name} is not modelled")
+    if isinstance(obj, BoundArgs):
+        if name == "arguments":
+            return obj.arguments
+        if name == "args":
+            return tuple(obj.arguments.values())
+        if name == "kwargs":
+            return {}
+        if name == "apply_defaults":
+            return Builtin(name, lambda: None)
+        raise AnalysisError(f"inspect.BoundArguments.{name} is not modelled")
     if isinstance(obj, Closure):
         if name in getattr(obj, "fattrs", {}):
             return obj.fattrs[name]
+        if name == "__code__" and isinstance(obj.node, (ast.FunctionDef, ast.Lambda)):
+            a_ = obj.node.args
+            pos_ = [x.arg for x in a_.posonlyargs + a_.args]
+            locals_ = []
+            for n_ in ast.walk(obj.node):
+                if isinstance(n_, ast.Name) and isinstance(n_.ctx, ast.Store) and n_.id not in pos_ and n_.id not in locals_:
+                    locals_.append(n_.id)
+            code = I.new_obj("code", None, {"co_argcount": sp.Integer(len(pos_)), "co_varnames": tuple(pos_ + [x.arg for x in a_.kwonlyargs] + locals_),
+                                            "co_kwonlyargcount": sp.Integer(len(a_.kwonlyargs)), "co_name": obj.qual.rsplit(".", 1)[-1]}, open_attrs=set())
+            return code
+        if name == "__module__":
+            return "periodictable." + obj.module
+        if name == "__qualname__":
+            return obj.qual.split(".", 1)[-1]
+        if name == "__wrapped__":
+            raise SymRaise("AttributeError", "__wrapped__")
+        if name == "__defaults__":
+            return None
         if name == "__doc__":
             return "<doc>"
         if name == "__name__":
@@ -1326,8 +1406,18 @@ def external(I, dotted):
                 out.append(acc)
             return out
         return Builtin(dotted, accumulate)
-    if dotted in ("csv", "io", "pathlib"):
+    if dotted in ("csv", "io", "pathlib", "inspect"):
         return ModuleVal(dotted, external=dotted)
+    if dotted == "inspect.signature":
+        def signature(f, **k):
+            g = f.fn if isinstance(f, BoundMethod) else f
+            if not isinstance(g, Closure) or not isinstance(g.node, (ast.FunctionDef, ast.Lambda)):
+                raise AnalysisError("inspect.signature of something that is not a package function")
+            sgn = SigVal(g)
+            if isinstance(f, BoundMethod):
+                sgn.names, sgn.npos = sgn.names[1:], sgn.npos - 1
+            return sgn
+        return Builtin(dotted, signature)
     if dotted == "io.StringIO":
         def stringio(text=""):
             if not isinstance(text, str):
